@@ -76,6 +76,9 @@ def _run_job(arg):
         if isinstance(e, core.Inconclusive):
             rec['status'] = 'inconclusive'
             rec['error'] = f"{type(e).__name__}: {e}"
+        elif isinstance(e, core.SliceMissing):
+            rec['status'] = 'ok'
+            rec['records'] = [note(f"{fname}{params}: not applicable to this form of the source: {e}", slice_missing=True)]
         else:
             rec['status'] = 'error'
             rec['error'] = f"{type(e).__name__}: {e}"
@@ -287,6 +290,7 @@ class Check:
                 'counterexamples_reproduced_known': [k for k, _ in self.known_hits],
                 'counterexamples_unreproduced': [k for k, *_ in self.unreproduced],
                 'inconclusive': [f"{j}: {w}" for j, w in self.inconclusive][:20],
+                'notes': [n_['name'] for n_ in self.notes][:20],
                 'exhaustive': False,
             },
             'assumptions': self.assumptions,
@@ -327,6 +331,8 @@ class Check:
             for key, what, tried, out in self.unreproduced[:10]:
                 print(f"INCONCLUSIVE counterexample did not reproduce on the real code: {key}: {what} {tried}\n{out}", file=sys.stderr)
             code = 3
+        for n_ in self.notes[:10]:
+            print(f"NOTE {n_['name']}")
         if code == 0:
             print(f"[{self.pid}] HELD within bounds")
         sys.stdout.flush()
